@@ -4,7 +4,7 @@ import json
 import os
 import tempfile
 
-ALL_KINDS = ["hs_plain", "hs_db_plugin", "query", "initdb", "fieldlist", "prepare", "execute", "execute_rebound", "execute0",
+ALL_KINDS = ["hs_plain", "hs_db_plugin", "query", "initdb", "fieldlist", "fieldlist_nodb", "prepare", "execute", "execute_rebound", "execute0",
              "longdata", "stmtclose", "stmtreset", "ping", "setoption", "unknown"]
 
 THRESHOLD = 16777215  # mysql.MaxPayloadLen
